@@ -670,6 +670,47 @@ def node_kind_in_identity(ctx, i):
     ctx.case({"node-kind-identity": [o[0] for o in order][:2], "b": type(backend).__name__}, True)
 
 
+def gate_mode_in_identity(ctx, i):
+    """ONE routing function behind a cached multi-target gate (a list of targets is a decision) and behind a cached
+    single-target gate over the same targets (a list is an error), on one cache in either order: each graph ends as
+    it ends without a cache - the single-target gate is never served the other gate's list decision."""
+    from hypergraph import FunctionNode, Graph, RouteNode, SyncRunner
+
+    rng = ctx.rng
+
+    def pick(x):
+        return ["a", "b"]
+
+    def mk(multi):
+        gate = RouteNode(pick, targets=["a", "b"], multi_target=multi, cache=True, name="pick")
+        return Graph([gate, FunctionNode(lambda x: ("a", x), name="a", output_name="ra"), FunctionNode(lambda x: ("b", x), name="b", output_name="rb")], name="gm")
+
+    gm, gs = mk(True), mk(False)
+    backend, tmp = _with_backend(rng)
+    order = [("multi", gm), ("single", gs), ("multi", gm), ("single", gs)] if rng.random() < 0.5 else [("single", gs), ("multi", gm), ("single", gs)]
+    cached, plain = SyncRunner(cache=backend), SyncRunner()
+    case = {"program": "one routing function as cached multi-target and as cached single-target gate", "order": [o[0] for o in order], "backend": type(backend).__name__}
+
+    def end(r, g):
+        try:
+            res = r.run(g, {"x": "run:x"})
+            return (res.status.value, res.values)
+        except Exception as e:  # noqa: BLE001
+            return ("raised", type(e).__name__)
+
+    try:
+        for step, (kind, g) in enumerate(order):
+            rc, ru = end(cached, g), end(plain, g)
+            ctx.obs["cached_runs_compared"] += 1
+            ctx.obs["gate_mode_identity_runs"] += 1
+            if rc != ru:
+                ctx.violation("C09:cached-differs-from-uncached:gate-mode", f"run {step} ({kind}-target gate): cached {core.short(rc, 200)} vs uncached {core.short(ru, 200)}: the decision stored by the gate of the other mode was served", {**case, "step": step})
+                break
+    finally:
+        _drop_backend(backend, tmp)
+    ctx.case({"gate-mode-identity": [o[0] for o in order][:2], "b": type(backend).__name__}, True)
+
+
 _REBUILD_FAIL = [None]
 
 
@@ -1079,6 +1120,8 @@ def run(ctx):
             unpicklable_depth(ctx, i)
         elif i % 25 == 13:
             node_kind_in_identity(ctx, i)
+        elif i % 25 == 21:
+            gate_mode_in_identity(ctx, i)
         elif i % 50 == 27:
             stale_class_entries(ctx, i)
         elif i % 10 == 8:
